@@ -101,6 +101,12 @@ def analyse(seed):
   m.fit(pd.DataFrame(recs).set_index('date'), 'response')
   dist = m.causal_cumulative_distribution(time=-1)
   scale_T = float(dist.kwds['scale'])
+  # the same posterior asked for in another response unit (rescale) on the last day: required impact is linear in the unit
+  unit = rng.choice([0.001, 0.25, 1000.0])
+  dist_u = m.causal_cumulative_distribution(time=-1, rescale=unit)
+  if not close(float(dist_u.kwds['scale']), unit * scale_T, 1e-10) or not close(float(dist_u.kwds['loc']), unit * float(dist.kwds['loc']), 1e-10):
+    out['fails'].append('posterior of the last day in the unit x%g: loc %r scale %r, expected %r and %r (required impact in that unit = %r)'
+                        % (unit, float(dist_u.kwds['loc']), float(dist_u.kwds['scale']), unit * float(dist.kwds['loc']), unit * scale_T, unit * impact))
   if abs(impact - mult * scale_T) > 1e-8 * max(1.0, abs(impact), abs(scale_T)):
     out['fails'].append('required impact %r is not (t_sig + t_power) x posterior scale = %r' % (impact, mult * scale_T))
   if mult > 0:
